@@ -24,6 +24,10 @@ def run(project, rep):
     rep.run(U.u_r1b_loop_state_on_unknown_path, schema, rep)
     rep.run(U.u_r7_index_deletion, schema, rep)
     rep.run(U.u_r8_nullable_fields, schema, rep)
+    rep.run(U.u_r10_tables_indexed_by_tag, schema, rep)
+    from .. import rules_header as H
+    rep.rule("U-R11", "an unknown aggregate reaches the model layer whole, whatever it contains: the body handed to the tokenizer is the decoded remainder, not cut at an inner `</OFX>` or rewritten (the hand-over clauses of H-R1)")
+    rep.run_only(("H-R1",), H.h_r1, project, rep, constructs=("parse_header:body-not-rewritten", "parse_header:v1-body-handed-over-whole"))
     from .. import rules_parser as P
     rep.rule("U-R6", "vendor-prefixed aggregates reach the model layer as sub-trees of their own (so that groom() can drop them whole): the tokenizer's dispatcher starts / ends an element for every tag it matches (P-R6)")
     rep.run(P.p_r6_every_match_dispatched, project, rep)
